@@ -120,7 +120,7 @@ func EvInOrigSame(typ string, rel int, body ...fixscan.Field) *Event {
 
 // EvSendFailingWrite: an application send during which the k-th write of the file store fails.
 func EvSendFailingWrite(k int) *Event {
-	return &Event{K: "send", Name: fmt.Sprintf("send(D, file write %d fails)", k), Send: []fixscan.Field{{11, "ID"}, {55, "X"}}, FailWrite: k}
+	return &Event{K: "send", Name: fmt.Sprintf("send(D, store write or statement %d fails)", k), Send: []fixscan.Field{{11, "ID"}, {55, "X"}}, FailWrite: k}
 }
 
 func EvRestart() *Event { return &Event{K: "restart", Name: "restart"} }
